@@ -30,11 +30,11 @@ META = dict(
          "ended by a jesse exception is judged as a prefix. Model: fee 0, one symbol, wallet relative to the cycle start.",
     design_ref="4/C06")
 
-KINDS_Q = ["ladder", "over", "two", "half", "near", "wrong", "ladder", "half"]
+KINDS_Q = ["ladder", "over", "two", "half", "near", "wrong", "tf5", "fast", "ladder", "half"]
 
 
 def run(ctx):
-    ctx.assumptions += ["futures account, cross margin (no liquidations), 1m trading routes, 1-2 symbols sharing one wallet",
+    ctx.assumptions += ["futures account, cross margin (no liquidations), 1m and 5m trading routes, 1-2 symbols sharing one wallet, both simulators",
                         "prices on a tick lattice, integer quantities, dyadic fee rates: trade PnL and wallet are exact multiples of "
                         "tick/fee-denominator and are compared exactly after rounding to that lattice",
                         "position size before/after each fill as reported by Position (C03 covers its arithmetic)"]
@@ -94,7 +94,7 @@ def run(ctx):
                         "actions": [a["a"] for a in cex[0][2]],
                         "events": [{k: v for k, v in e.items() if k != "act"} for e in t0["ev"] if e["k"] in ("fillb", "hook", "fille", "end")][:16]})
     # ---------------------------------------------------------------- T
-    items = K.vivo_items(ctx, ctx.pick(110, 2400), KINDS_Q, ctx.pick(240, 400))
+    items = K.vivo_items(ctx, ctx.pick(130, 1500), KINDS_Q, ctx.pick(240, 400))
     traces, by_id = K.run_vivo(ctx, items)
     bad_t, st_t = K.judge(ctx, "TraceHooksTrades", traces, "T", by_id, parts=ctx.pick(8, 14))
     for t in traces + sim_traces:
